@@ -45,7 +45,11 @@ type Input struct {
 	// how the data directory is spelled in each start: abs | slash | dotdot | rel | reldot | relup | tilde | tildeslash
 	// (default abs); Home: the directory lives below the user's home directory (needed for the ~ spellings)
 	Spell []string `json:"spell,omitempty"`
-	Home  bool     `json:"home,omitempty"`
+	// RealCmd: every start runs the real command (cmd/honeytrap New().Run, flags -c and -d); Cwd: working directory of
+	// each start ("" = parent of the data directory, else a directory of that name next to it; only with abs/~ spellings)
+	RealCmd bool     `json:"real_cmd,omitempty"`
+	Cwd     []string `json:"cwd,omitempty"`
+	Home    bool     `json:"home,omitempty"`
 }
 
 type Obs struct {
@@ -261,6 +265,14 @@ func runCase(in Input, dir string) (Obs, string) {
 		}
 	}
 	ob.Data, ob.HomeD = data, homeDir()
+	cwdOf := func(i int) string {
+		if i < len(in.Cwd) && in.Cwd[i] != "" {
+			d := filepath.Join(filepath.Dir(data), "cwd-"+in.Cwd[i])
+			os.MkdirAll(d, 0o755)
+			return d
+		}
+		return filepath.Dir(data)
+	}
 	spellOf := func(i int) string {
 		if i < len(in.Spell) && in.Spell[i] != "" {
 			return spelled(in.Spell[i], data)
@@ -328,7 +340,7 @@ func runCase(in Input, dir string) (Obs, string) {
 		}
 		tag := fmt.Sprintf("run%d", i)
 		r, crash, stop := spawnX(Job{Mode: "run", DataDir: data, Services: svcs, Wiring: in.Wiring, Hold: mode(i+1) == "overlap",
-			Spell: spellOf(i), Cwd: filepath.Dir(data)}, dir, tag, -1)
+			Spell: spellOf(i), Cwd: cwdOf(i), RealCmd: in.RealCmd}, dir, tag, -1)
 		if unlock != nil {
 			unlock()
 		}
@@ -825,6 +837,21 @@ func generate(r *hx.Rand, tier string) []Input {
 		in.Kind, in.Reachable = "spelling", true
 		ins = append(ins, in)
 	}
+	// (1g) the REAL command (cmd/honeytrap New().Run with -c/-d: its own option list and
+	// order), the working directory changing between starts
+	reals := []Input{
+		{Runs: tokenOnly(3), Cwd: []string{"a", "b", "a"}},
+		{Runs: [][]string{{"ssh", "ftp"}, {"ssh"}, {"ssh", "ftp", "agent"}}, Cwd: []string{"", "a", "b"}},
+		{Home: true, Spell: []string{"tilde", "tilde", "abs"}, Runs: tokenOnly(3), Cwd: []string{"a", "b", "b"}},
+		{Spell: []string{"rel", "abs", "reldot"}, Runs: tokenOnly(3)},
+		{Runs: tokenOnly(3), TokenFile: bp(""), Cwd: []string{"a", "", "b"}},
+	}
+	for _, in := range reals {
+		in.Kind, in.Reachable, in.RealCmd = "real-command", true, true
+		ins = append(ins, in)
+	}
+	// own option list, working directory changing
+	ins = append(ins, Input{Kind: "spelling", Reachable: true, Runs: tokenOnly(3), Cwd: []string{"a", "b", ""}})
 	// (2) restart histories of length 2..5 with varying service sets
 	nh := 6
 	if big {
